@@ -516,53 +516,7 @@ func report(c *core.Ctx, sc scenario, out outcome) {
 	}
 }
 
-var raceRe = regexp.MustCompile(`(?m)^WARNING: DATA RACE`)
-
-func postChild(dir string, batch int, res *core.Result) {
-	files, _ := filepath.Glob(filepath.Join(dir, "race.*"))
-	for _, f := range files {
-		b, err := os.ReadFile(f)
-		if err != nil {
-			continue
-		}
-		for _, blk := range strings.Split(string(b), "==================") {
-			if !raceRe.MatchString(blk) {
-				continue
-			}
-			res.Counts["race_reports"]++
-			if len(res.Violations) < 50 {
-				res.Violations = append(res.Violations, core.Violation{Case: -1, Sig: "race:" + raceSig(blk), Detail: map[string]interface{}{"report": truncate(blk, 6000)}})
-			}
-		}
-	}
-}
-
-func truncate(s string, n int) string {
-	if len(s) > n {
-		return s[:n]
-	}
-	return s
-}
-
-var frameRe = regexp.MustCompile(`(?m)^  ([^\s(]+)\(`)
-
-// raceSig: the first gorm frame of each of the two stacks, line numbers stripped.
-func raceSig(blk string) string {
-	parts := strings.Split(blk, "\n\n")
-	var sig []string
-	for _, p := range parts {
-		if !(strings.Contains(p, "Write at") || strings.Contains(p, "Read at") || strings.Contains(p, "Previous write") || strings.Contains(p, "Previous read")) {
-			continue
-		}
-		for _, m := range frameRe.FindAllStringSubmatch(p, -1) {
-			if strings.Contains(m[1], "gorm.io/gorm") {
-				sig = append(sig, m[1])
-				break
-			}
-		}
-	}
-	return strings.Join(sig, "<>")
-}
+func postChild(dir string, batch int, res *core.Result) { core.ScanRaceLogs(dir, res, nil) }
 
 var Engine = &core.Engine{
 	ID:    "C14",
